@@ -172,6 +172,9 @@ func propC14(c *Ctx, r *Report) {
 	r.Clauses = append(r.Clauses, "literal text (E10): no strconv.Parse* / Atoi / fmt.Sscan* call in the frontend receives the raw Value text of a parser.Literal (which keeps the WGSL suffix and may be hexadecimal); numeric text goes through the lowerer's literal parsers, so @workgroup_size(64u), @align(0x10), @id(3u) and suffixed override defaults are not silently replaced by defaults")
 	c.runLiteralRawParse(r, "literal.rawparse", inPkgs("wgsl"), literalRawParseExceptions)
 	r.floor("literal.parses", 25)
+	r.Clauses = append(r.Clauses, "converted override values (E17): every store into the table of resolved override values ([]float64 sized by the module's overrides) takes its value from a call that receives the override's declared type, so overrides and initialisers that depend on an override see its value converted to its type")
+	c.runOverrideConverted(r, "override.converted")
+	r.floor("override.converted", 1)
 	r.Clauses = append(r.Clauses, signExtClause+" - here: conversion of supplied pipeline-constant values and literals into ScalarValues")
 	c.runSignExt(r, "conv.signext", inPkgs("msl", "ir", "glsl", "hlsl", "spirv"))
 	r.floor("conv.signext", 3)
